@@ -44,6 +44,7 @@ type Contract struct {
 	Modifies    []string
 	HasModifies bool
 	Inline      bool
+	InlineLit   bool // inline at call sites whose variadic list has a literal length
 	Trusted     bool
 	Tags        []string
 	SafeTags    []string
@@ -412,6 +413,10 @@ func (db *ContractDB) loadFile(path, pkg string) error {
 				}
 			case "inline":
 				cur.Inline = true
+				if rest == "literal" {
+					cur.Inline = false
+					cur.InlineLit = true
+				}
 			case "trusted":
 				cur.Trusted = true
 				db.scan = append(db.scan, "trusted "+cur.Name)
@@ -1302,6 +1307,10 @@ func (c *SpecCtx) evalCall(x *ast.CallExpr) (Val, types.Type) {
 		v, t := c.eval(x.Args[0])
 		return c.bytesStr(v.(*Term), t), tString
 	case "held":
+		// held in any mode by the current thread
+		v, _ := c.eval(x.Args[0])
+		return Or(Select(c.heaps("G!held", ArrSort(SBool)), c.e.term(v)), Select(c.heaps("G!rheld", ArrSort(SBool)), c.e.term(v))), tBool
+	case "heldw":
 		v, _ := c.eval(x.Args[0])
 		return Select(c.heaps("G!held", ArrSort(SBool)), c.e.term(v)), tBool
 	}
